@@ -124,12 +124,18 @@ def gen_case(rng, index, tier):
                 'seed': rng.getrandbits(48)}
     n = rng.randint(1, 9)
     locs = rng.sample(LOCS, min(n, len(LOCS)))
-    dates = [rng.choice(['2001-01-01T00:00:00', '2002-02-02T02:02:02',
-                         '2002-02-02T02:02:03', '1999-12-31T23:59:59',
-                         '2030-06-06T06:06:06']) for _ in locs]
     L, trashes, _ = trashworld.make(rng, index, n_entries=0,
                                     volumes=rng.choice([[], ['v1']]),
                                     home_own=False, xdg='unset')
+    tz = L.env.get('TZ')
+    pool = ['2001-01-01T00:00:00', '2002-02-02T02:02:02',
+            '2002-02-02T02:02:03', '1999-12-31T23:59:59',
+            '2030-06-06T06:06:06']
+    if tz in trashgen.DST_ZONES:
+        # wall-clock times around the zone's switches: the order is that of
+        # the DeletionDate values as written
+        pool = trashgen.DST_ZONES[tz] + pool[:2]
+    dates = [rng.choice(pool) for _ in locs]
     entries = []
     base = 'top'      # all locations live under R/top (on the root volume)
     for i, (lc, dt) in enumerate(zip(locs, dates)):
